@@ -222,13 +222,13 @@ func Concrete(v, lo, hi int) int {
 //     searches schedules: a schedule-dependent counterexample is confirmed
 //     when some seed makes the same assertion fail on the real code.
 var (
-	Scheduled  bool
-	schedRand  uint64
-	schedMu    sync.Mutex
-	schedTh    []*nthread
-	schedCur   *nthread
-	threads    sync.WaitGroup
-	thPanic    atomic.Value
+	Scheduled bool
+	schedRand uint64
+	schedMu   sync.Mutex
+	schedTh   []*nthread
+	schedCur  *nthread
+	threads   sync.WaitGroup
+	thPanic   atomic.Value
 )
 
 type nthread struct {
@@ -440,6 +440,12 @@ func Rendezvous(n int) {
 // other threads is a scheduling decision). Natively tickers are real.
 func Ticks(k int) {}
 
+// DistinctRandomness: from here on crypto/rand delivers, under the executor, a
+// concrete byte stream in which any two windows of 4 or more bytes at different
+// offsets differ (the idealisation "two random draws never coincide"). Natively
+// crypto/rand stays real.
+func DistinctRandomness() {}
+
 // Settle lets goroutines started so far (e.g. by a constructor) reach their
 // parking point before the concurrent part of a harness begins. Only tickers
 // created after the latest Ticks call ever fire under the executor.
@@ -475,34 +481,48 @@ func WaitAll() {
 	}
 }
 
-
 // sync/atomic wrappers: the replay overlay rewrites atomic.X(...) calls of the
 // repository into verifrt.AtomicX(...), a scheduling point followed by the real operation.
-func AtomicAddInt32(p *int32, d int32) int32 { Yield(); return atomic.AddInt32(p, d) }
-func AtomicLoadInt32(p *int32) int32 { Yield(); return atomic.LoadInt32(p) }
-func AtomicStoreInt32(p *int32, v int32) { Yield(); atomic.StoreInt32(p, v) }
+func AtomicAddInt32(p *int32, d int32) int32  { Yield(); return atomic.AddInt32(p, d) }
+func AtomicLoadInt32(p *int32) int32          { Yield(); return atomic.LoadInt32(p) }
+func AtomicStoreInt32(p *int32, v int32)      { Yield(); atomic.StoreInt32(p, v) }
 func AtomicSwapInt32(p *int32, v int32) int32 { Yield(); return atomic.SwapInt32(p, v) }
-func AtomicCompareAndSwapInt32(p *int32, o, n int32) bool { Yield(); return atomic.CompareAndSwapInt32(p, o, n) }
-func AtomicAddInt64(p *int64, d int64) int64 { Yield(); return atomic.AddInt64(p, d) }
-func AtomicLoadInt64(p *int64) int64 { Yield(); return atomic.LoadInt64(p) }
-func AtomicStoreInt64(p *int64, v int64) { Yield(); atomic.StoreInt64(p, v) }
+func AtomicCompareAndSwapInt32(p *int32, o, n int32) bool {
+	Yield()
+	return atomic.CompareAndSwapInt32(p, o, n)
+}
+func AtomicAddInt64(p *int64, d int64) int64  { Yield(); return atomic.AddInt64(p, d) }
+func AtomicLoadInt64(p *int64) int64          { Yield(); return atomic.LoadInt64(p) }
+func AtomicStoreInt64(p *int64, v int64)      { Yield(); atomic.StoreInt64(p, v) }
 func AtomicSwapInt64(p *int64, v int64) int64 { Yield(); return atomic.SwapInt64(p, v) }
-func AtomicCompareAndSwapInt64(p *int64, o, n int64) bool { Yield(); return atomic.CompareAndSwapInt64(p, o, n) }
-func AtomicAddUint32(p *uint32, d uint32) uint32 { Yield(); return atomic.AddUint32(p, d) }
-func AtomicLoadUint32(p *uint32) uint32 { Yield(); return atomic.LoadUint32(p) }
-func AtomicStoreUint32(p *uint32, v uint32) { Yield(); atomic.StoreUint32(p, v) }
+func AtomicCompareAndSwapInt64(p *int64, o, n int64) bool {
+	Yield()
+	return atomic.CompareAndSwapInt64(p, o, n)
+}
+func AtomicAddUint32(p *uint32, d uint32) uint32  { Yield(); return atomic.AddUint32(p, d) }
+func AtomicLoadUint32(p *uint32) uint32           { Yield(); return atomic.LoadUint32(p) }
+func AtomicStoreUint32(p *uint32, v uint32)       { Yield(); atomic.StoreUint32(p, v) }
 func AtomicSwapUint32(p *uint32, v uint32) uint32 { Yield(); return atomic.SwapUint32(p, v) }
-func AtomicCompareAndSwapUint32(p *uint32, o, n uint32) bool { Yield(); return atomic.CompareAndSwapUint32(p, o, n) }
-func AtomicAddUint64(p *uint64, d uint64) uint64 { Yield(); return atomic.AddUint64(p, d) }
-func AtomicLoadUint64(p *uint64) uint64 { Yield(); return atomic.LoadUint64(p) }
-func AtomicStoreUint64(p *uint64, v uint64) { Yield(); atomic.StoreUint64(p, v) }
+func AtomicCompareAndSwapUint32(p *uint32, o, n uint32) bool {
+	Yield()
+	return atomic.CompareAndSwapUint32(p, o, n)
+}
+func AtomicAddUint64(p *uint64, d uint64) uint64  { Yield(); return atomic.AddUint64(p, d) }
+func AtomicLoadUint64(p *uint64) uint64           { Yield(); return atomic.LoadUint64(p) }
+func AtomicStoreUint64(p *uint64, v uint64)       { Yield(); atomic.StoreUint64(p, v) }
 func AtomicSwapUint64(p *uint64, v uint64) uint64 { Yield(); return atomic.SwapUint64(p, v) }
-func AtomicCompareAndSwapUint64(p *uint64, o, n uint64) bool { Yield(); return atomic.CompareAndSwapUint64(p, o, n) }
-func AtomicAddUintptr(p *uintptr, d uintptr) uintptr { Yield(); return atomic.AddUintptr(p, d) }
-func AtomicLoadUintptr(p *uintptr) uintptr { Yield(); return atomic.LoadUintptr(p) }
-func AtomicStoreUintptr(p *uintptr, v uintptr) { Yield(); atomic.StoreUintptr(p, v) }
+func AtomicCompareAndSwapUint64(p *uint64, o, n uint64) bool {
+	Yield()
+	return atomic.CompareAndSwapUint64(p, o, n)
+}
+func AtomicAddUintptr(p *uintptr, d uintptr) uintptr  { Yield(); return atomic.AddUintptr(p, d) }
+func AtomicLoadUintptr(p *uintptr) uintptr            { Yield(); return atomic.LoadUintptr(p) }
+func AtomicStoreUintptr(p *uintptr, v uintptr)        { Yield(); atomic.StoreUintptr(p, v) }
 func AtomicSwapUintptr(p *uintptr, v uintptr) uintptr { Yield(); return atomic.SwapUintptr(p, v) }
-func AtomicCompareAndSwapUintptr(p *uintptr, o, n uintptr) bool { Yield(); return atomic.CompareAndSwapUintptr(p, o, n) }
+func AtomicCompareAndSwapUintptr(p *uintptr, o, n uintptr) bool {
+	Yield()
+	return atomic.CompareAndSwapUintptr(p, o, n)
+}
 
 // Run executes a harness natively and classifies the outcome.
 // It returns "pass", "assert:<label>", "assume", or "panic:<value>".
